@@ -5,6 +5,7 @@ package connect
 // identity = per-segment decoding of the raw path, R4 no two different identities build the same URI).
 
 import (
+	"strings"
 	"testing"
 
 	"github.com/hashicorp/consul/internal/verifkit"
@@ -30,6 +31,13 @@ func FuzzVerifC12URI(f *testing.F) {
 	}
 	rec := verifkit.For("C12")
 	f.Fuzz(func(t *testing.T, r1, r2 string) {
+		// The independent reader of the oracle (R3) is defined for URLs with an authority, "spiffe://host/path…",
+		// which is the shape of a SPIFFE ID; other shapes (no authority, opaque) are outside the oracle's domain.
+		for _, r := range []string{r1, r2} {
+			if len(r) < 9 || !strings.EqualFold(r[:9], "spiffe://") {
+				return
+			}
+		}
 		c := rec.NewCase()
 		defer c.GuardPanic(t, "C12/panic")
 		op := verifC12ParserOp{Op: "raw", Raw: []string{r1, r2}}
